@@ -27,24 +27,13 @@ func (f *Frame) String() string {
 }
 
 func (f *Frame) Read(r io.Reader) ([]byte, error) {
-	buf := framePool.Get().(*[]byte) // nolint:errcheck
-	defer framePool.Put(buf)
-
-	lr := io.LimitReader(r, int64(f.size))
-	var bin []byte
-	var read int
-	for {
-		n, err := lr.Read(*buf)
-		if err != nil {
-			return nil, err // probably EOF, but raise an error
-		}
-		read += n
-		bin = append(bin, (*buf)[:n]...)
-		if read == f.size {
-			break
-		}
+	bin := make([]byte, f.size)
+	// A single Read may legally return fewer bytes than asked (pipes, chunked
+	// streams), so read until the whole payload arrived. Zero-length payload
+	// (e.g. empty string) reads nothing.
+	if _, err := io.ReadFull(r, bin); err != nil {
+		return nil, err // probably EOF, but raise an error
 	}
-
 	return bin, nil
 }
 
